@@ -36,10 +36,10 @@ def lemma_keys(tier):
     ok_sh = [ast.dump(s) for s in front.strip(sh).body] == [ast.dump(ast.parse("return self").body[0])]
     ok_fc = [ast.dump(s) for s in front.strip(fc).body] == [ast.dump(ast.parse("return self.lead_contract()").body[0])]
     return [
-        lemma.check("C14::lemma::hash_is_symbol_hash", ok_h, "AbstractContract.__hash__ returns hash(self.symbol)"),
-        lemma.check("C14::lemma::eq_is_symbol_eq", ok_e, "AbstractContract.__eq__ compares symbols (or the symbol's hash with a str key)"),
-        lemma.check("C14::lemma::static_hashing_identity", ok_sh, "non-chain contracts hash statically to themselves"),
-        lemma.check("C14::lemma::chain_hashes_to_lead", ok_fc, "FutureChain.static_hashing returns lead_contract() (C11 contracts)"),
+        lemma.binds("C14::lemma::hash_is_symbol_hash", ok_h, "AbstractContract.__hash__ returns hash(self.symbol)"),
+        lemma.binds("C14::lemma::eq_is_symbol_eq", ok_e, "AbstractContract.__eq__ compares symbols (or the symbol's hash with a str key)"),
+        lemma.binds("C14::lemma::static_hashing_identity", ok_sh, "non-chain contracts hash statically to themselves"),
+        lemma.binds("C14::lemma::chain_hashes_to_lead", ok_fc, "FutureChain.static_hashing returns lead_contract() (C11 contracts)"),
     ]
 
 
